@@ -1,4 +1,5 @@
 import RepeVerif.Model.Router
+import RepeVerif.Model.RouterStruct
 /-! Helper lemmas for C07 (router, middleware, JSON-pointer tokenisers). Core Lean only. -/
 namespace Repe.Router
 
@@ -594,6 +595,92 @@ theorem get_isSome_eq_covers (F : Facts) (hF : F.getOrder = [.exact, .registries
         have e3 : r.structs.any (fun pe => mountMatches pe.1 path) = false := by
           rw [List.any_eq_false]; intro x hx; exact List.find?_eq_none.mp h3 x hx
         simp [e3]
+
+/-! ## derived structs: addressing -/
+
+theorem resolve_path (segs : List Str) : ∀ (fs : Spec) (pre : List Str) (b : Bool) (a : Access),
+    resolve fs pre segs b = .ok a → a.path = pre ++ segs := by
+  induction segs with
+  | nil =>
+    intro fs pre b a h
+    simp only [resolve] at h
+    cases b <;> simp at h <;> cases h <;> simp [Access.path]
+  | cons head tail ih =>
+    intro fs pre b a h
+    rw [resolve] at h
+    split at h
+    · cases h
+    · split at h
+      · cases h
+      · rename_i ht
+        have : tail = [] := by simpa using ht
+        subst this
+        split at h
+        · cases h; simp [Access.path]
+        · split at h
+          · cases h
+          · cases h; simp [Access.path]
+    · split at h
+      · rename_i ht
+        have : tail = [] := by simpa using ht
+        subst this
+        split at h
+        · cases h; simp [Access.path]
+        · split at h
+          · cases h
+          · cases h; simp [Access.path]
+      · have := ih _ _ _ _ h
+        simpa using this
+    · split at h
+      · cases h
+      · rename_i ht
+        have : tail = [] := by simpa using ht
+        subst this
+        split at h
+        · cases h
+        · cases h; simp [Access.path]
+
+/-- A path that resolves to a leaf write resolves, without a body, to the read of the same leaf. -/
+theorem resolve_write_read (segs : List Str) : ∀ (fs : Spec) (pre : List Str) (p : List Str),
+    resolve fs pre segs true = .ok (.write p) → resolve fs pre segs false = .ok (.read p) := by
+  induction segs with
+  | nil => intro fs pre p h; simp [resolve] at h
+  | cons head tail ih =>
+    intro fs pre p h
+    rw [resolve] at h ⊢
+    cases hl : fs.lookup head with
+    | none => simp [hl] at h
+    | some node =>
+      cases node with
+      | leaf ro =>
+        simp only [hl] at h ⊢
+        by_cases ht : tail.isEmpty = true
+        · simp only [ht, Bool.not_true, Bool.false_eq_true, if_false] at h ⊢
+          cases ro
+          · simp at h ⊢; exact h
+          · simp at h
+        · simp [ht] at h
+      | nested ro fs' =>
+        simp only [hl] at h ⊢
+        by_cases ht : tail.isEmpty = true
+        · simp only [ht, if_true, Bool.not_true, Bool.false_eq_true, if_false] at h
+          cases ro <;> simp at h
+        · simp only [ht] at h ⊢
+          exact ih _ _ _ h
+      | method ta un =>
+        simp only [hl] at h
+        by_cases ht : tail.isEmpty = true
+        · simp only [ht, Bool.not_true, Bool.false_eq_true, if_false] at h
+          split at h <;> cases h
+        · simp [ht] at h
+
+theorem store_get_set (st : Store) (d : Bytes) (p : List Str) (v : Bytes) : (st.set p v).get d p = v := by
+  simp [Store.set, Store.get]
+
+theorem store_get_set_ne (st : Store) (d : Bytes) (p q : List Str) (v : Bytes) (h : q ≠ p) :
+    (st.set p v).get d q = st.get d q := by
+  have : ¬ p = q := fun e => h e.symm
+  simp [Store.set, Store.get, this]
 
 /-! ## middleware chains -/
 
